@@ -75,9 +75,9 @@ def run_driver(repo, outdir, profile="dev", all_targets=False, crates="customasm
     return ok, log
 
 
-def extract(repo="/repo", profile="dev", all_targets=False, quiet=False):
+def extract(repo="/repo", profile="dev", all_targets=False, quiet=False, crates="customasm", need=("lib", "bin")):
     """Return directory with facts for the current tree of `repo` (cached)."""
-    key = tree_hash(repo, extra="%s|%s" % (profile, all_targets))
+    key = tree_hash(repo, extra="%s|%s|%s|%s" % (profile, all_targets, crates, os.path.abspath(repo)))
     os.makedirs(CACHE, exist_ok=True)
     d = os.path.join(CACHE, key)
     lock = open(os.path.join(CACHE, ".lock"), "w")
@@ -89,7 +89,7 @@ def extract(repo="/repo", profile="dev", all_targets=False, quiet=False):
             shutil.rmtree(d)
         tmp = tempfile.mkdtemp(prefix="facts-", dir=CACHE)
         t0 = time.time()
-        ok, log = run_driver(repo, tmp, profile=profile, all_targets=all_targets)
+        ok, log = run_driver(repo, tmp, profile=profile, all_targets=all_targets, crates=crates)
         if not ok:
             shutil.rmtree(tmp, ignore_errors=True)
             raise ExtractionError("fact extraction failed (does /repo compile?):\n" + log[-4000:])
@@ -97,9 +97,9 @@ def extract(repo="/repo", profile="dev", all_targets=False, quiet=False):
         kinds = set()
         for f in files:
             kinds.add(f.split("-")[1] + ("-test" if "-test-" in f else ""))
-        if "lib" not in kinds or "bin" not in kinds:
+        if any(k not in kinds for k in need):
             shutil.rmtree(tmp, ignore_errors=True)
-            raise ExtractionError("fact extraction produced %r, expected lib and bin facts\n%s" % (files, log[-2000:]))
+            raise ExtractionError("fact extraction produced %r, expected %r facts\n%s" % (files, need, log[-2000:]))
         with open(os.path.join(tmp, "DONE"), "w") as fh:
             fh.write("%.1f\n" % (time.time() - t0))
         os.rename(tmp, d)
